@@ -16,6 +16,9 @@ pub struct ProbeCtl {
     pub calls_after_none: AtomicU32,
     /// 0 = fused: keeps returning None; k > 0: after the first None, the k-th later call yields again
     pub revive_after: AtomicU32,
+    /// thread that made the previous call (+1), and number of cross-thread hand-offs (relaxed: adds no happens-before)
+    pub last_thread: AtomicU32,
+    pub handoffs: AtomicU32,
 }
 
 pub static PROBE: ProbeCtl = ProbeCtl {
@@ -26,6 +29,8 @@ pub static PROBE: ProbeCtl = ProbeCtl {
     produced: AtomicU32::new(0),
     calls_after_none: AtomicU32::new(0),
     revive_after: AtomicU32::new(0),
+    last_thread: AtomicU32::new(0),
+    handoffs: AtomicU32::new(0),
 };
 
 pub fn probe_reset() {
@@ -36,6 +41,8 @@ pub fn probe_reset() {
     PROBE.produced.store(0, Relaxed);
     PROBE.calls_after_none.store(0, Relaxed);
     PROBE.revive_after.store(0, Relaxed);
+    PROBE.last_thread.store(0, Relaxed);
+    PROBE.handoffs.store(0, Relaxed);
 }
 
 #[derive(Clone, Copy, Debug, PartialEq, Eq)]
@@ -79,6 +86,11 @@ fn pre_next() -> bool {
         PROBE.overlaps.fetch_add(1, Relaxed);
     }
     sched::probe_access();
+    let me = sched::worker_id() as u32 + 1;
+    let prev = PROBE.last_thread.swap(me, Relaxed);
+    if prev != 0 && prev != me {
+        PROBE.handoffs.fetch_add(1, Relaxed);
+    }
     // another thread may be scheduled while this one is inside `next`
     sched::point(PointKind::User);
     let k = PROBE.calls.fetch_add(1, Relaxed);
